@@ -67,6 +67,8 @@ func main() {
 		runC13(cfg)
 	case "c16":
 		runC16(cfg)
+	case "cany":
+		runCAny(cfg)
 	default:
 		fmt.Fprintln(os.Stderr, "unknown VERIF_MODE", mode)
 		os.Exit(2)
